@@ -96,3 +96,11 @@ func VerifMuLocked(fsys *BackupFS) bool {
 	}
 	return true
 }
+
+// VerifWrap replaces the two filesystems of an existing BackupFS, e.g. by
+// recording wrappers around the ones New/NewWithFS assembled.
+func VerifWrap(fsys *BackupFS, wrap func(base, backup FS) (FS, FS)) {
+	fsys.mu.Lock()
+	defer fsys.mu.Unlock()
+	fsys.base, fsys.backup = wrap(fsys.base, fsys.backup)
+}
